@@ -87,6 +87,11 @@ pub use sentence::{CharacterBoundary, CharacterType, Sentence, Token, TokenItera
 #[cfg(feature = "verif-hooks")]
 pub use sentence::VerifSentenceState;
 
+#[cfg(all(feature = "verif-hooks", feature = "train"))]
+mod verif;
+#[cfg(all(feature = "verif-hooks", feature = "train"))]
+pub use verif::{verif_take_train_trace, VerifFeature, VerifTrainTrace};
+
 #[cfg(feature = "train")]
 pub use trainer::{SolverType, Trainer};
 
